@@ -28,7 +28,11 @@ func (v *Vue) evalTemplate(ctx VueContext, nodes []*html.Node, componentData map
 
 		// Check for include attribute - handle inclusion first
 		if helpers.HasAttr(node, "include") {
-			vars, err := v.evalAttributes(ctx, node)
+			// Evaluate the props on a copy of the tag: evalAttributes stores the evaluated values
+			// in the node, and the same include node is evaluated again when it is part of slot
+			// content that a component uses more than once - the substituted values would then
+			// be interpolated a second time, as if they were template source.
+			vars, err := v.evalAttributes(ctx, helpers.ShallowCloneWithAttrs(node))
 			if err != nil {
 				return nil, err
 			}
